@@ -8,15 +8,47 @@ package main
 // WK.C06.c06_ack_call_sites_guarded.
 
 import (
+	"bytes"
 	"fmt"
 	"go/ast"
 	"go/parser"
+	"go/printer"
 	"go/token"
 	"os"
 	"path/filepath"
 	"sort"
 	"strings"
 )
+
+// c06Skeleton renders every top-level statement of a function body as normalised
+// source text (go/printer, comments dropped, white space collapsed): guards, their
+// order, what they return, and the assignments between them.
+func c06Skeleton(fset *token.FileSet, fd *ast.FuncDecl) []string {
+	var out []string
+	for _, st := range fd.Body.List {
+		var buf bytes.Buffer
+		_ = printer.Fprint(&buf, fset, st)
+		out = append(out, strings.Join(strings.Fields(buf.String()), " "))
+	}
+	return out
+}
+
+type c06Fn struct{ file, recv, name string }
+
+// the transition functions whose branch structure the Lean model mirrors
+var c06Pinned = []c06Fn{
+	{"pkg/channel/machine/append.go", "ChannelState", "ApplyAppendStored"},
+	{"pkg/channel/machine/append.go", "ChannelState", "ApplyQuorumCommitted"},
+	{"pkg/channel/machine/append.go", "ChannelState", "ApplyFollowerAck"},
+	{"pkg/channel/machine/append.go", "ChannelState", "matchesInflightFence"},
+	{"pkg/channel/machine/append.go", "ChannelState", "failInflightAppend"},
+	{"pkg/channel/machine/append.go", "ChannelState", "assignInflightRecordsToWaiters"},
+	{"pkg/channel/machine/append.go", "ChannelState", "completeAppendWaiters"},
+	{"pkg/channel/machine/meta.go", "ChannelState", "ValidateMeta"},
+	{"pkg/channel/machine/meta.go", "ChannelState", "shouldClearAppendStateForMeta"},
+	{"pkg/channel/machine/progress.go", "ChannelState", "AdvanceHW"},
+	{"pkg/channel/reactor/quorum_runtime.go", "Reactor", "handleQuorumInstallResult"},
+}
 
 func init() { register("C06", extractC06) }
 
@@ -143,6 +175,62 @@ func extractC06(repo string) (string, error) {
 		}
 		fmt.Fprintf(&b, "  ⟨%s, %s, %s, %s⟩%s\n", leanStr(s.file), leanStr(s.fn), leanStr(s.arg), leanStr(s.guard), sep)
 	}
-	b.WriteString("]\n\nend WK.Gen.C06\n")
+	b.WriteString("]\n\n")
+	b.WriteString("/-- (function, its top-level statements as normalised Go source) for the transition functions the model mirrors -/\n")
+	b.WriteString("def skeleton : List (String × List String) := [\n")
+	for i, fn := range c06Pinned {
+		fset := token.NewFileSet()
+		f, err := parser.ParseFile(fset, filepath.Join(repo, fn.file), nil, 0)
+		if err != nil {
+			return "", err
+		}
+		fd := findMethod(f, fn.recv, fn.name)
+		if fd == nil || fd.Body == nil {
+			return "", fmt.Errorf("%s: method %s.%s not found", fn.file, fn.recv, fn.name)
+		}
+		fmt.Fprintf(&b, "  (%s, [\n", leanStr(fn.name))
+		sk := c06Skeleton(fset, fd)
+		for j, line := range sk {
+			sep := ","
+			if j == len(sk)-1 {
+				sep = ""
+			}
+			fmt.Fprintf(&b, "    %s%s\n", leanStr(line), sep)
+		}
+		sep := ","
+		if i == len(c06Pinned)-1 {
+			sep = ""
+		}
+		fmt.Fprintf(&b, "  ])%s\n", sep)
+	}
+	b.WriteString("]\n\n")
+	// the only statement of handleStoreCheckpointResult that writes ChannelState
+	{
+		fset := token.NewFileSet()
+		f, err := parser.ParseFile(fset, filepath.Join(repo, "pkg/channel/reactor/lifecycle_runtime.go"), nil, 0)
+		if err != nil {
+			return "", err
+		}
+		fd := findMethod(f, "Reactor", "handleStoreCheckpointResult")
+		if fd == nil {
+			return "", fmt.Errorf("handleStoreCheckpointResult not found")
+		}
+		var writes []string
+		for _, line := range c06Skeleton(fset, fd) {
+			if strings.Contains(line, "rc.state.CheckpointHW =") || strings.Contains(line, "rc.state.HW =") || strings.Contains(line, "rc.state.LEO =") {
+				writes = append(writes, line)
+			}
+		}
+		b.WriteString("/-- the top-level statements of handleStoreCheckpointResult that assign LEO / HW / CheckpointHW -/\ndef checkpointResultWrites : List String := [\n")
+		for j, line := range writes {
+			sep := ","
+			if j == len(writes)-1 {
+				sep = ""
+			}
+			fmt.Fprintf(&b, "  %s%s\n", leanStr(line), sep)
+		}
+		b.WriteString("]\n\n")
+	}
+	b.WriteString("end WK.Gen.C06\n")
 	return b.String(), nil
 }
